@@ -152,6 +152,9 @@ int main(int argc, char **argv) {
             for (int r = 0; r < (heavy ? (reps + 4) / 5 : reps); r++) roundtrip_one(k, r % 4 == 0 ? 0 : 1, g);
             if (k.name == "GateBootstrappingParameterSet") for (int r = 0; r < 4; r++) roundtrip_one(k, 2, g);   // both default sets
         }
+        // the same kinds in reverse order: a long export (secret key set) now precedes shorter ones on the same thread,
+        // so state kept by an exporter between calls (staging buffers, cached sections) shows up as differing bytes
+        for (auto it = K.rbegin(); it != K.rend(); ++it) roundtrip_one(*it, 0, g);
     } else if (mode == "sequence") {
         for (int r = 0; r < reps; r++) concatenated(K, g, r & 1);
     } else if (mode == "functional") {
